@@ -1,2 +1,86 @@
+/-
+  C16 — key material is accepted only from replies sealed by the security context.
+-/
 import DpapiNg.Model.RpcClient
-import DpapiNg.Model.Epm
+namespace DpapiNg.C16
+open DpapiNg DpapiNg.Rpc DpapiNg.RpcClient
+
+def isResponse (b : Body) : Bool := match b with | .response _ _ _ _ => true | _ => false
+
+/-- A response PDU without a security trailer (auth_len = 0) answering a sealed request is rejected
+    with ValueError — the stub is never handed to the caller (the D11 repair). -/
+theorem cleartext_rejected (a : Auth) (sign : Bool) (resp : Bytes) (h : Header) (offs : Nat × Nat) (p : Pdu)
+    (h0 : h.authLen = 0) (hdec : pduUnpack resp = .ok p) (hr : isResponse p.body = true) :
+    processResponse (some a) sign resp h .response (some offs) = .error .valueError := by
+  obtain ⟨s, e⟩ := offs
+  unfold processResponse
+  simp only [h0, ne_eq, not_true_eq_false, if_false, pure, Except.pure, Bind.bind, Except.bind, hdec]
+  cases hb : p.body with
+  | response a1 a2 a3 a4 => simp [throw, throwThe, MonadExceptOf.throw]
+  | bind _ _ _ _ _ => simp [hb, isResponse] at hr
+  | bindAck _ _ _ _ _ _ => simp [hb, isResponse] at hr
+  | bindNak _ _ => simp [hb, isResponse] at hr
+  | request _ _ _ _ _ => simp [hb, isResponse] at hr
+  | fault _ _ _ _ _ _ => simp [hb, isResponse] at hr
+
+/-- the region of the reply the security context is asked to verify and open -/
+def regions (resp : Bytes) (h : Header) (s : Nat) : Bytes × Bytes × Bytes × Bytes :=
+  let off : Int := (h.fragLen : Int) - ((h.authLen : Int) + 8)
+  (resp.take s, Py.slice resp s off, Py.slice resp off (off + 8), Py.sliceFrom resp (off + 8))
+
+/-- Whatever response PDU `request()` returns on a sealed call, the security context's `unwrap` was run
+    on (header, body, trailer header, signature) taken at the offsets frag_len / auth_len dictate, it
+    succeeded, and the PDU handed to the caller is the decoding of the frame with exactly that plaintext
+    spliced in. -/
+theorem sealed_only (a : Auth) (sign : Bool) (resp : Bytes) (h : Header) (s e : Nat) (p : Pdu)
+    (hok : processResponse (some a) sign resp h .response (some (s, e)) = .ok p) :
+    h.authLen ≠ 0 ∧ ∃ dec, a.unwrap sign (regions resp h s).1 (regions resp h s).2.1 (regions resp h s).2.2.1 (regions resp h s).2.2.2 = .ok dec ∧
+      pduUnpack (resp.take (Py.clampIdx resp.length s) ++ dec ++
+        resp.drop (max (Py.clampIdx resp.length ((h.fragLen : Int) - ((h.authLen : Int) + 8))) (Py.clampIdx resp.length s))) = .ok p := by
+  unfold processResponse at hok
+  by_cases h0 : h.authLen = 0
+  · -- cleartext: any response is rejected, anything else is not a response
+    simp only [h0, ne_eq, not_true_eq_false, if_false, pure, Except.pure, Bind.bind, Except.bind] at hok
+    cases hd : pduUnpack resp with
+    | error er => simp [hd] at hok
+    | ok q =>
+      simp only [hd] at hok
+      cases hb : q.body <;> simp [hb, Expect.matches, throw, throwThe, MonadExceptOf.throw] at hok
+  · refine ⟨h0, ?_⟩
+    simp only [h0, ne_eq, not_false_eq_true, if_true, Bind.bind, Except.bind] at hok
+    cases hu : a.unwrap sign (List.take s resp) (Py.slice resp ↑s (↑h.fragLen - (↑h.authLen + 8)))
+        (Py.slice resp (↑h.fragLen - (↑h.authLen + 8)) (↑h.fragLen - (↑h.authLen + 8) + 8))
+        (Py.sliceFrom resp (↑h.fragLen - (↑h.authLen + 8) + 8)) with
+    | error er => simp [hu] at hok
+    | ok dec =>
+      refine ⟨dec, by simpa [regions] using hu, ?_⟩
+      simp only [hu, pure, Except.pure] at hok
+      generalize hR : (List.take (Py.clampIdx resp.length ↑s) resp ++ dec ++
+          List.drop (max (Py.clampIdx resp.length (↑h.fragLen - (↑h.authLen + 8))) (Py.clampIdx resp.length ↑s)) resp) = R at hok ⊢
+      cases hd : pduUnpack R with
+      | error er => rw [hd] at hok; cases hok
+      | ok q =>
+        rw [hd] at hok
+        simp only at hok
+        cases hb : q.body <;> simp [hb, Expect.matches, throw, throwThe, MonadExceptOf.throw, h0] at hok
+        · rw [← hok]
+
+/-- integrity idealisation of the security context: `unwrap` succeeds only on what the peer sealed —
+    over header and trailer header too when header signing is on — and then yields the sealed plaintext -/
+structure Ideal (a : Auth) (sign : Bool) (hdr0 body0 tr0 sig0 plain0 : Bytes) : Prop where
+  only : ∀ hdr body tr sig dec, a.unwrap sign hdr body tr sig = .ok dec →
+    body = body0 ∧ sig = sig0 ∧ dec = plain0 ∧ (sign = true → hdr = hdr0 ∧ tr = tr0)
+
+/-- Under the idealisation, a reply is accepted only if its body and signature (and, when signing,
+    header and trailer header) are the authentic ones, and then the caller gets the authentic plaintext:
+    any alteration of those regions is rejected. -/
+theorem tamper_rejected (a : Auth) (sign : Bool) (hdr0 body0 tr0 sig0 plain0 : Bytes) (hI : Ideal a sign hdr0 body0 tr0 sig0 plain0)
+    (resp : Bytes) (h : Header) (s e : Nat) (p : Pdu)
+    (hok : processResponse (some a) sign resp h .response (some (s, e)) = .ok p) :
+    (regions resp h s).2.1 = body0 ∧ (regions resp h s).2.2.2 = sig0 ∧
+    (sign = true → (regions resp h s).1 = hdr0 ∧ (regions resp h s).2.2.1 = tr0) := by
+  obtain ⟨_, dec, hu, _⟩ := sealed_only a sign resp h s e p hok
+  obtain ⟨h1, h2, _, h4⟩ := hI.only _ _ _ _ _ hu
+  exact ⟨h1, h2, h4⟩
+
+end DpapiNg.C16
